@@ -487,7 +487,9 @@ PROPS['C08']['ties'] = [(SV + 'GetChildSem', ['Tcs.serverSrc_getChildVersion_sem
 PROPS['C10']['ties'] = [(SV + 'AddSnapshot', ['Tcs.serverSrc_addSnapshot', 'Tcs.serverSrc_addSnapshot_impl', 'Tcs.serverSrc_loop'], ['server:addSnapshot'])]
 PROPS['C11']['ties'] = [(SV + 'GetSnapshot', ['Tcs.serverSrc_getSnapshot'], ['server:getSnapshot'])]
 # the clap declarations and the wiring of main
-PROPS['C17']['ties'] = [('Tcs.Proofs.CliSrcTie', ['Tcs.cliSrc_args', 'Tcs.cliSrc_wiring', 'Tcs.cliSrc_resolve'], ['cli:args', 'cli:wiring'])]
+PROPS['C17']['ties'] = [('Tcs.Proofs.CliSrcTie', ['Tcs.cliSrc_args', 'Tcs.cliSrc_wiring', 'Tcs.cliSrc_resolve'], ['cli:args', 'cli:wiring']),
+                        # the wiring map INTERPRETED: every resolved value reaches the constructor parameter the model assumes (Proofs/CliWire.lean)
+                        ('Tcs.Proofs.CliWire', ['Tcs.cliSrc_wire'], ['cli:wiring'])]
 # the HTTP handlers of server/src/api/*.rs, translated statement by statement (tools/handlers2lean.py)
 H_ = 'Tcs.Proofs.HandlerTie.'
 def _add_ties(pid, ties):
